@@ -159,6 +159,7 @@ func checkC16(p *core.Program, r *core.Report) {
 		for _, n := range wi.Notes {
 			r.Violation("O16.1", tn+".UnmarshalJSON: field wiring", p.Pos(dec.Pos()), "%s", n)
 		}
+		checkDecoderFillsOnEveryPath(p, r, tn, dec, 0)
 		// ---- encoder
 		eev := eng.NewEval(enc)
 		recv := eev.Params[0]
